@@ -97,7 +97,7 @@ CLAIMED['C12'] = dict(
          'the automaton state and (run task, state, run_arg), nothing delivered for a refused request. The plugin (un)registration '
          'clause is a theorem on the registry model Life/Registry.v (a hook call is an atomic snapshot: a plugin receives exactly the '
          'calls made while its last (un)registration was a registration, each once), tied to register()/unregister()/reset() of a real '
-         'object on generated histories. A run that fails to start is covered by scenarios + oracle only (not a label of the model).' + LIFE_TIE,
+         'object on generated histories. A run that FAILS TO START is not a label of the lifecycle LTS; it is covered by a control-flow skeleton of Callback._run/_finish, RunSession.run and relay_events REGENERATED from the source (translate/callback_skeleton.py) whose every await may raise: for every such oracle run_arg is withdrawn before the single Finish, the run() call is always unblocked, end-run iff the session completed (Life/FailStart.v; tied by real runs with failing plugins).' + LIFE_TIE,
     note=LIFE_NOTE, technique='Coq: abstraction to 11 abstract transitions + automaton invariant; co-simulation + oracle', design='5/C12')
 CLAIMED['C03'] = dict(
     text='Machine-checked proof (Coq 8.16.1) on Life/Model.v: every return of a close is without error; the close that does the work '
